@@ -38,9 +38,12 @@ def strategy(names):
             n = len(pre) + len(ins)
             qual = ''.join(chr(33 + q) for q in draw(st.lists(st.integers(0, 51), min_size=n, max_size=n)))
             reads.append({'pre': pre, 'ins': ins, 'qual': qual})
+        tx = False
+        if name == 'DamAndT':
+            tx = draw(st.sampled_from([False, False, True, True, 'both']))
         return {'via_file': draw(st.sampled_from([None, None, None, None, None, None, True, False])),
-                'tx': name == 'DamAndT' and draw(st.integers(0, 2)) == 0, 'strategy': name, 'exact_prefix': draw(st.sampled_from([None, None, None, None, 0, 1, 'both'])), 'bc_idx': draw(st.integers(0, 10 ** 6)), 'mismatch': draw(st.sampled_from([None, None, None, 0, 3, 7])),
-                'hd': draw(st.sampled_from([0, 0, 1])), 'reads': reads, 'motif': motif, 'motif_pos': draw(st.integers(0, 40)),
+                'tx': tx, 'strategy': name, 'exact_prefix': draw(st.sampled_from([None, None, None, None, 0, 1, 'both'])), 'bc_idx': draw(st.integers(0, 10 ** 6)), 'mismatch': draw(st.sampled_from([None, None, None, 0, 3, 7])),
+                'hd': 1 if tx == 'both' else draw(st.sampled_from([0, 0, 1])), 'reads': reads, 'motif': motif, 'motif_pos': draw(st.integers(0, 40)),
                 'perturb': draw(st.lists(st.tuples(st.integers(0, 1), st.integers(0, 120), st.sampled_from('ACGT'), st.integers(0, 51)), min_size=3, max_size=3)),
                 'serial': draw(st.integers(1, 99999)), 'index': draw(st.integers(0, 10 ** 6))}
     return case()
@@ -54,7 +57,7 @@ def materialise(case, scratch=None):
     if s is None:
         return None, 'strategy not registered'
     pl = ds.placement(s)
-    if case.get('tx') and case['strategy'] == 'DamAndT':
+    if case.get('tx') is True and case['strategy'] == 'DamAndT':
         # the transcriptome branch of this strategy: a CEL-Seq2 read (6 bp UMI, 8 bp barcode of the celseq2 whitelist)
         pl = dict(pl, parts=[(0, 6, 8, 'celseq2', 0)])
     seqs = []
@@ -89,6 +92,13 @@ def materialise(case, scratch=None):
                 return None, 'read too short'
             seqs[m][start:start + ln] = list(raw_bc[off:off + ln])
             bc_positions.extend((m, start + i) for i in range(ln))
+    if case.get('tx') == 'both' and case['strategy'] == 'DamAndT':
+        amb = ambiguous_damandt(bp, case)
+        if amb is None or len(seqs[0]) < 14:
+            return None, 'no barcode pair for an ambiguous DamAndT read'
+        seqs[0][3:13] = list(amb[0])
+        seqs[0][13] = amb[1]
+        raw_bc = amb[0]
     if mo == 'cs2bc' and case['strategy'] == 'TCHIC' and len(seqs[0]) > 80:
         # expected CEL-Seq2 bleed-through: the cs2 barcode of the same cell index followed by poly-T
         cs2 = {v: k for k, v in (bp['celseq2'] or {}).items()}
@@ -113,6 +123,34 @@ def materialise(case, scratch=None):
         records.append(FastqRecord(header, ''.join(sq), '+', quals[m][:len(sq)]))
     return records, {'strategy': s, 'raw_bc': raw_bc, 'bc_positions': set(bc_positions), 'placement': pl, 'bp': bp,
                      'alias': pl['parts'][0][3] if pl['parts'] else None, 'index_seq': index_seq}
+
+
+_AMB = {}
+
+
+def ambiguous_damandt(bp, case):
+    """R1[3:13] and R1[13] such that (under expansion distance 1) R1[3:13] resolves to a DamID2 barcode AND R1[6:14] to a
+    CEL-Seq2 barcode: the DamID2 barcode with a read error in its last base (drawn) overlapping a compatible CEL-Seq2 barcode."""
+    if case['hd'] != 1:
+        return None
+    if 'pairs' not in _AMB:
+        dam = [b for b, _ in ds.whitelist(bp, 'DamID2')]
+        cs2 = [b for b, _ in ds.whitelist(bp, 'celseq2')]
+        pairs = []
+        for d in dam:
+            for err in 'ACGT':
+                if err == d[9]:
+                    continue
+                x = d[:9] + err
+                for c in cs2:
+                    dist = sum(a != b for a, b in zip(c[:7], x[3:10]))
+                    if dist <= 1:
+                        pairs.append((x, c[7]))
+        _AMB['pairs'] = pairs
+    pairs = _AMB['pairs']
+    if not pairs:
+        return None
+    return pairs[case['bc_idx'] % len(pairs)]
 
 
 def run(strategy, records):
@@ -231,6 +269,24 @@ def eval_case(case):
         want = ins.lstrip('T') if ins.lstrip('T') else ins[-1:]
         if snap[0]['seq'] != want and len(ins) > 0:
             out.bad('DamAndT:RNA-branch:insert', 'emitted R1 %r..., expected the insert from position 14 without its leading T run %r...' % (snap[0]['seq'][:20], want[:20]))
+    # ---------------- (1b') DamAndT, DamID and Ambiguous branches: the record is what the DamID2 strategy alone makes of the pair
+    if name == 'DamAndT' and snap[0]['tags'].get('dt') in ('DamID', 'Ambiguous') and not out.violations:
+        _, strategies_, _, _, _ = ds.get_loader(scratch_dir(), case['hd'])
+        try:
+            alone, _ = run(strategies_['DamID2'], records)
+        except Exception:
+            alone = None
+        if alone is not None:
+            sa = snapshot(alone)
+            for m, (x, y) in enumerate(zip(snap, sa)):
+                if x['seq'] != y['seq'] or x['qual'] != y['qual']:
+                    out.bad('DamAndT:%s-branch:differs-from-DamID2-alone' % snap[0]['tags'].get('dt'), 'mate %d: %r... vs DamID2 %r...' % (m + 1, x['seq'][:24], y['seq'][:24]))
+                    break
+                for t in ('RX', 'bc', 'BC', 'bi', 'RQ'):
+                    if x['tags'].get(t) != y['tags'].get(t):
+                        out.bad('DamAndT:%s-branch:tag-differs-from-DamID2-alone' % snap[0]['tags'].get('dt'), 'tag %s: %r vs %r' % (t, x['tags'].get(t), y['tags'].get(t)))
+                        break
+            out.label('DamAndT compared with DamID2 alone')
     # ---------------- (1c) scattered DamID layouts (UMI, CB, UMI, CB, then the insert), DamID branch: the emitted stretch of
     # mate 1 starts right behind the last barcode base and its first two bases are the ligation tag lh / lq
     if name in ('DamID2_3u4b3u6b', 'DamID2andT_3u4b3u4b', 'DamID2andT_3u4b3u6b') and (snap[0]['tags'].get('dt') == 'DamID' or name == 'DamID2_3u4b3u6b') \
